@@ -1363,3 +1363,77 @@ def r17(R):
                     key='short header at the end of the file not taken for '
                         'the end')
     R.require(n >= 1, 'handler of the header read not found')
+
+
+# ----------------------------------------------------------------- C17.R18
+@rule('C17.R18', 'restore() survives a hint that leads to an un-creation: on '
+      'its paths (with _data_find) a backpointer is followed only when it '
+      'is known to be non-zero, or inside a handler for POSKeyError -- '
+      'following a zero backpointer raises (the object does not exist)',
+      min_instances=1)
+def r18(R):
+    cls = R.prog.cls(FS)
+    f = R.method(cls, 'restore')
+    g, b, F = R.cfg(f, cls, max_depth=2,
+                    inline=lambda t, fr: t.func.name in ('_data_find',))
+    FOLLOW = ('_loadBack_impl', '_loadBack', '_loadBackTxn', '_loadBackPOS')
+    seen = [0]
+    # calls lexically inside `try: ... except (POS)KeyError`
+    protected = set()
+    for fn in (f, R.method(cls, '_data_find')):
+        for t in walk_local(fn.node):
+            if isinstance(t, ast.Try) and any(
+                    h.type is None or any(
+                        isinstance(x, (ast.Name, ast.Attribute)) and (
+                            x.id if isinstance(x, ast.Name) else x.attr) in (
+                                'POSKeyError', 'KeyError', 'POSError',
+                                'Exception', 'BaseException')
+                        for x in ast.walk(h.type)) for h in t.handlers):
+                protected |= {id(x) for s_ in t.body for x in ast.walk(s_)}
+
+    def back_expr(e):
+        return isinstance(e, ast.Attribute) and e.attr == 'back'
+
+    def edge(node, st, lab, tgt):
+        if node.kind == 'test' and lab in ('T', 'F'):
+            for e, truth in implied_atoms(node.ast, lab):
+                if back_expr(e) and truth:
+                    st = st | {ast.unparse(e)}
+                if isinstance(e, ast.Compare) and len(e.ops) == 1 and \
+                        back_expr(e.left) and isinstance(
+                            e.comparators[0], ast.Constant) and \
+                        e.comparators[0].value == 0 and \
+                        isinstance(e.ops[0], (ast.Eq, ast.NotEq)) and \
+                        isinstance(e.ops[0], ast.NotEq) == truth:
+                    st = st | {ast.unparse(e.left)}
+        return st
+
+    def at(node, st):
+        for op in F.ops(node):
+            if op.kind == 'call' and op.path is not None and \
+                    op.path[-1] in FOLLOW and isinstance(op.ast, ast.Call) \
+                    and len(op.ast.args) >= 2 and back_expr(op.ast.args[1]):
+                seen[0] += 1
+                if id(op.ast) in protected:
+                    continue
+                if ast.unparse(op.ast.args[1]) not in st:
+                    return Violation(
+                        'restore() (through %s) follows the backpointer '
+                        '`%s` without knowing that it is non-zero: for the '
+                        'record of an un-creation it is zero and following '
+                        'it raises POSKeyError -- copying an undamaged '
+                        'storage whose history has a backpointer to an '
+                        'un-creation (create, undo, store again, undo) '
+                        'stops after a prefix; fsrecover swallows the error '
+                        'and drops the transactions' % (
+                            node.frame.func.name,
+                            ast.unparse(op.ast.args[1])))
+        return st
+
+    vs, stats = explore(g, frozenset(), at=at, edge=edge)
+    R.count(stats)
+    R.instance('FileStorage.restore with _data_find',
+               backpointers_followed=seen[0])
+    for v in vs[:1]:
+        R.violation(v.node, v.message, g, v.path,
+                    key='zero backpointer followed on a restore path')
